@@ -596,6 +596,8 @@ func (in *interp) eqnil(t types.Type, x, y value) value {
 				return v == nil
 			case *ssa.Builtin:
 				return v == nil
+			case *hostFunc:
+				return v == nil
 			case []value:
 				return v == nil
 			}
